@@ -134,6 +134,19 @@ def typed_token_faults(spans, enc):
                 yield [rep(a, w, bs, "typed_field_token")]
 
 
+def hex_bitmap_pair_faults(spans):
+    """hex bitmap rendering: each pair of hex characters (one bitmap byte) rewritten together - white space
+    (which lenient hex parsers skip), upper case, a 0x prefix, non-hex letters"""
+    a, b = spans["bitmap"]
+    if b - a != 32:
+        return
+    for off in range(a, b, 2):
+        for pair in (b"  ", b"\t\t", b"\n\n", b" \t", b"FF", b"zz", b"0x", b"0X", b"-1", b"+1", b"\x00\x00"):
+            yield [rep(off, 2, pair, "hex_bitmap_pair")]
+    yield [rep(a, 32, b" " * 32, "hex_bitmap_pair")]
+    yield [rep(a + 2, 4, b"    ", "hex_bitmap_pair")]
+
+
 def splice_faults(msg: bytes, spans, enc):
     """directed mis-framing: a variable element's prefix rewritten to a negative numeral with the
     following bytes laid out so that a naive pointer walk (pointer += prefix size + declared length)
